@@ -48,13 +48,12 @@ def _is_transient_response(res: requests.Response) -> bool:
 
 
 def _gen_error_variants(error_id: str) -> List[str]:
+    """Handler keys for an error id, most specific first: the full id, the id without
+    its `proto.<protocol>.` prefix, its final component, its category."""
     chunks = error_id.split('.')
-    variants = [error_id]
-    if len(chunks) > 1:
-        variants.append(chunks[-2])
-        if len(chunks) > 2:
-            variants.append('.'.join(chunks[2:]))
-    return variants
+    if chunks[0] == 'proto' and len(chunks) > 2:
+        chunks = chunks[2:]
+    return [error_id, '.'.join(chunks), chunks[-1], chunks[0]]
 
 
 class RpcError(Exception):
